@@ -24,6 +24,8 @@ var c11Transports = []string{
 	"garbage", ";;;;", "RTP/AVP;unicast;client_port=5000-5001;ssrc=ZZ", "RTP/AVP;unicast;client_port=5000-5001;ssrc=12345678;destination=1.2.3.4;ttl=9999",
 	"RTP/AVP;unicast;client_port=5000-5001,RTP/AVP/TCP;unicast;interleaved=0-1", "RTP/AVP/UDP;unicast;client_port=5000-5001", "RTP/AVP/TCP;unicast;interleaved=0-1;" + strings.Repeat("a=b;", 600),
 	"RTP/AVP;unicast;server_port=1-2", "rtp/avp/tcp;UNICAST;INTERLEAVED=0-1", "RTP/AVP;unicast;mode=record", "RTP/AVP/UDP;unicast", "RTP/AVP;unicast;mode=play", "RTP/AVP;unicast;client_port=61000-61001", "RTP/AVP;unicast;client_port=61002-61003;mode=record",
+	// ports the server cannot send to (its first datagrams to the peer fail)
+	"RTP/AVP;unicast;client_port=0-1;mode=record", "RTP/AVP;unicast;client_port=0-1",
 }
 
 var c11HeaderValues = []string{"", "0", "-1", "99999999999999999999", "abc", strings.Repeat("x", 5000), "%s%n%x", "a\x00b", " ", "1, 2", "\"", "npt=abc", "npt=-5-", "smpte=99:99:99-",
@@ -65,6 +67,9 @@ func c11Template(t *rapid.T) []HStep {
 			{Kind: "req", Method: "SETUP", Track: 0, Proto: proto, Mode: "record"}, {Kind: "req", Method: "SETUP", Track: 1, Proto: proto, Mode: "record"}, {Kind: "req", Method: "RECORD"}}
 		if proto == "tcp" {
 			s = append(s, HStep{Kind: "frame", Chan: 0, Size: 40}, HStep{Kind: "frame", Chan: 1, Size: 28})
+		} else if rapid.IntRange(0, 3).Draw(t, "unsendable_ports") == 0 {
+			// numeric extreme: a port pair whose first port is 0 (the server's own datagrams to it cannot be sent)
+			s[2+rapid.IntRange(0, 1).Draw(t, "unsendable_track")].Transport = "RTP/AVP;unicast;client_port=0-1;mode=record"
 		}
 		if rapid.Bool().Draw(t, "pause") {
 			s = append(s, HStep{Kind: "req", Method: "PAUSE"}, HStep{Kind: "req", Method: "RECORD"})
